@@ -19,8 +19,8 @@ def profile(st):
 CHECK = MixedCheck(
     prop='C03', profile=profile,
     monitors=lambda: [Registry(), AccountMonitor(('C03',))],
-    tiers={'quick': 300, 'thorough': 30_000},
-    ops_profile={'type': 'futures'}, ops_tiers={'quick': 4000, 'thorough': 600_000},
+    tiers={'quick': 300, 'thorough': 10_000},
+    ops_profile={'type': 'futures'}, ops_tiers={'quick': 4000, 'thorough': 120_000},
     ops_nontrivial=lambda r: r['counters'].get('c03_compares', 0) >= 5,
     nontrivial=lambda r: r['counters'].get('c03_fill_reduce', 0) + r['counters'].get('c03_fill_close', 0) > 0,
     rule=('operation runs: real store/exchange/positions/orders/broker/strategy plumbing of a futures session (1-2 symbols sharing the '
